@@ -136,6 +136,11 @@ impl CountedIndex {
     }
 
     #[inline(always)]
+    pub fn store_raw(&self, val: usize, ord: Ordering) {
+        self.val.store(val, ord)
+    }
+
+    #[inline(always)]
     pub fn get_previous(start: usize, by: Index) -> usize {
         start.wrapping_sub(by as usize)
     }
@@ -148,11 +153,16 @@ impl<'a> Transaction<'a> {
         ((self.loaded_vals & self.mask) as isize, self.loaded_vals)
     }
 
-    /// Returns true if the values passed in matches the previous wrap-around of the Transaction
+    /// Returns true if the value passed in is at, or behind, the previous wrap-around of the
+    /// Transaction - i.e. a tail at `val` leaves no free slot for this head. Unlike
+    /// `matches_previous` this also holds when the tail is *more* than a lap behind, which
+    /// happens for a moment when a stream is published at a position the writers have
+    /// already passed.
     #[inline(always)]
-    pub fn matches_previous(&self, val: usize) -> bool {
+    pub fn at_or_behind_previous(&self, val: usize) -> bool {
         let wrap = self.mask.wrapping_add(1);
-        rm_tag(self.loaded_vals.wrapping_sub(wrap)) == val
+        let previous = rm_tag(self.loaded_vals.wrapping_sub(wrap));
+        !past(previous, val).1
     }
 
     #[inline(always)]
